@@ -227,6 +227,35 @@ pub fn pool(tier: Tier, seed: u64, thin: usize) -> Vec<Family> {
             (fanout_keys(fo, depth, fin, deep, rng), style)
         }));
     }
+    // F2a: the SAME wide fan (65..256 bytes) under several prefixes, with other nodes in between: the equal wide nodes meet in the
+    // builder's cache - under the small hook geometries after other nodes have gone through the same cells
+    {
+        let count = 7 * 4 * 3;
+        fams.push(fam("duplicated-wide-fans", count, seed, move |i, rng| {
+            let fo = [33usize, 64, 65, 66, 100, 255, 256][i % 7];
+            let nprefix = 2 + (i / 7) % 4;
+            let style = [0usize, 1, 4][(i / 28) % 3];
+            let mut bytes: Vec<u8> = (0..=255u8).collect();
+            for a in 0..256 {
+                let b = a + rng.usize(256 - a);
+                bytes.swap(a, b);
+            }
+            bytes.truncate(fo);
+            let mut keys: Vec<Vec<u8>> = vec![];
+            for p in 0..nprefix {
+                let prefix: Vec<u8> = vec![b'a' + p as u8 * 3, b'q'];
+                for &b in &bytes {
+                    keys.push([&prefix[..], &[b][..]].concat());
+                }
+                // a few unrelated keys between the fans
+                keys.push(vec![b'a' + p as u8 * 3 + 1, b'x', b'y', p as u8]);
+                keys.push(vec![b'a' + p as u8 * 3 + 1, b'x', b'z']);
+            }
+            keys.sort();
+            keys.dedup();
+            (keys, style)
+        }));
+    }
     // F2b: grid of fan-out x output width: a node with `fo` transitions whose outputs all need exactly `w` bytes
     // (w = 0 means a set), with and without a final output of that width
     {
